@@ -88,3 +88,226 @@ def to_case(ob):
 def generate(prop, cls):
     from contracts.registry import run_contract
     return run_contract(prop, ("filters", f"{cls}.get_impulse_response"), contract(cls), [("", setup(cls))], name="windows", fname=f"{cls}.get_impulse_response")
+
+
+# ------------------------------------------------------------------------------------------------------------- GammaWindow
+# get_impulse_response(width) returns exactly `width` non-negative samples: sample i is the gamma density of the window's order at
+# t = width - 1 - i (time reversed),   a^n / (n-1)! * t^(n-1) * e^(-a t)   computed as  t^(n-1) * exp(-a t + n ln a - ln (n-1)!),  with
+# a = (n-1) / (width - peak * width) for n >= 2 (so that the density's maximum (n-1)/a falls at peak * width samples before the end) and
+# a = 5 / width for n = 1; one sample is [1], none is [].  exp / log / power / factorial are uninterpreted (A-MATH: exp > 0, x^k >= 0 for
+# x >= 0, 0^k = 0 for k >= 1, x^0 = 1); "the maximum falls at peak * width" itself is calculus on that closed form and stays bounded.
+# Preconditions: order >= 1 (integer), 0 <= peak < 1 (peak = 1 divides by zero; the constructor does not check - observation).
+import ast as _ast
+
+GEXP = z3.Function("exp", R, R)
+GLOG = z3.Function("log", R, R)
+GPOW = z3.Function("pow_int", R, I, R)
+GFACT = z3.Function("factorial", I, R)
+
+
+class RVec:
+    """a float vector held in the ghost state (z3 array Int -> Real), or a view [lo, lo + n) of one"""
+    def __init__(self, key, lo, n):
+        self.key, self.lo, self.n = key, simp(Z(lo)), simp(Z(n))
+
+    def at(self, arr, t):
+        return z3.Select(arr, self.lo + t)
+
+    def sym_len(self):
+        return self.n
+
+    def _bounds(self, sl, ev, node):
+        if sl.step is not None:
+            raise Outside("stepped slice")
+        lo = z3.IntVal(0) if sl.lower is None else Z(ev.eval(sl.lower))
+        hi = self.n if sl.upper is None else Z(ev.eval(sl.upper))
+        # numpy clamps; a bound outside the array would silently shorten the slice: demanded in range instead
+        ev.wd(z3.And(lo >= 0, lo <= hi, hi <= self.n), "slice_in_range", node)
+        return simp(lo), simp(hi)
+
+    def sym_getitem(self, sl, ev, node):
+        if isinstance(sl, _ast.Slice):
+            lo, hi = self._bounds(sl, ev, node)
+            return RVec(self.key, self.lo + lo, hi - lo)
+        raise Outside("scalar read of a window vector")
+
+    def sym_setitem(self, sl, v, ev, node):
+        if not isinstance(sl, _ast.Slice):
+            raise Outside("scalar store into a window vector")
+        lo, hi = self._bounds(sl, ev, node)
+        n = simp(hi - lo)
+        if not isinstance(v, RExpr):
+            raise Outside("slice store of an unsupported value")
+        ev.ex.oblige(ev.st, v.view.n == n, f"store_length.L{node.lineno - ev.ex.fx.lineno}", "wd", node.lineno)
+        st = ev.st
+        arr, src = st.ghost[self.key], st.ghost[v.view.key]
+        t_ = z3.Int("gw!%d" % next(symex._fresh))
+        a0 = self.lo + lo
+        st.ghost[self.key] = z3.Lambda([t_], z3.If(z3.And(t_ >= a0, t_ < a0 + n), v.fn(v.view.at(src, t_ - a0)), z3.Select(arr, t_)))
+
+
+class RExpr:
+    def __init__(self, view, fn):
+        self.view, self.fn = view, fn
+
+
+def _lift(x):
+    if isinstance(x, RVec):
+        return RExpr(x, lambda v: v)
+    return x
+
+
+def h_gamma_binop(ex, st, op, a, b, n):
+    import ast
+    a, b = _lift(a), _lift(b)
+    num = lambda x: symex.is_num(x) or (symex.is_z3(x) and (z3.is_int(x) or z3.is_real(x)))
+    if isinstance(a, RExpr) and isinstance(b, RExpr):
+        if a.view.key != b.view.key or simp(z3.And(a.view.lo == b.view.lo, a.view.n == b.view.n)) is not True:
+            raise Outside("element-wise operation on different views")
+        if isinstance(op, ast.Mult):
+            return RExpr(a.view, lambda v: a.fn(v) * b.fn(v))
+        if isinstance(op, ast.Add):
+            return RExpr(a.view, lambda v: a.fn(v) + b.fn(v))
+        raise Outside("vector-vector operator")
+    if isinstance(a, RExpr) and num(b):
+        if isinstance(op, ast.Pow):
+            if not (isinstance(b, int) or (symex.is_z3(b) and z3.is_int(b))):
+                raise Outside("non-integer power of a vector")
+            return RExpr(a.view, lambda v: GPOW(a.fn(v), Z(b)))
+        zb = to_real(b)
+        if isinstance(op, ast.Mult):
+            return RExpr(a.view, lambda v: a.fn(v) * zb)
+        if isinstance(op, ast.Add):
+            return RExpr(a.view, lambda v: a.fn(v) + zb)
+        if isinstance(op, ast.Sub):
+            return RExpr(a.view, lambda v: a.fn(v) - zb)
+        raise Outside("vector-scalar operator")
+    if num(a) and isinstance(b, RExpr):
+        za = to_real(a)
+        if isinstance(op, ast.Mult):
+            return RExpr(b.view, lambda v: za * b.fn(v))
+        if isinstance(op, ast.Add):
+            return RExpr(b.view, lambda v: za + b.fn(v))
+        raise Outside("scalar-vector operator")
+    return NotImplemented
+
+
+def h_arange(ex, st, args, kwargs, node, ev):
+    ok = len(args) == 3 and args[1] == -1 and args[2] == -1 and isinstance(kwargs.get("dtype"), Opaque) and kwargs["dtype"].term == "float"
+    if not ok:
+        raise Outside("np.arange form")
+    start = Z(args[0])
+    t_ = z3.Int("ga!%d" % next(symex._fresh))
+    key = "G%d" % next(symex._fresh)
+    st.ghost[key] = z3.Lambda([t_], z3.ToReal(start - t_))          # start, start-1, ..., 0
+    return RVec(key, 0, simp(start + 1))
+
+
+def h_array_literal(ex, st, args, kwargs, node, ev):
+    vals = args[0]
+    if not isinstance(vals, (list, tuple)) or not all(isinstance(v, int) for v in vals) or not (isinstance(kwargs.get("dtype"), Opaque) and kwargs["dtype"].term == "float"):
+        raise Outside("np.array form")
+    key = "L%d" % next(symex._fresh)
+    arr = z3.K(I, z3.RealVal(0))
+    for i, v in enumerate(vals):
+        arr = z3.Store(arr, i, z3.RealVal(v))
+    st.ghost[key] = arr
+    return RVec(key, 0, len(vals))
+
+
+def h_gexp(ex, st, args, kwargs, node, ev):
+    (x,) = args
+    x = _lift(x)
+    if isinstance(x, RExpr):
+        return RExpr(x.view, lambda v: GEXP(x.fn(v)))
+    return GEXP(to_real(x))
+
+
+def h_glog(ex, st, args, kwargs, node, ev):
+    (x,) = args
+    ex.oblige(st, to_real(x) > 0, f"log_of_a_positive_number.L{node.lineno - ex.fx.lineno}", "wd", node.lineno)
+    return GLOG(to_real(x))
+
+
+def h_gfact(ex, st, args, kwargs, node, ev):
+    (k,) = args
+    ex.oblige(st, Z(k) >= 0, f"factorial_of_a_non_negative_integer.L{node.lineno - ex.fx.lineno}", "wd", node.lineno)
+    st.assume(GFACT(Z(k)) >= 1)
+    return GFACT(Z(k))
+
+
+def setup_gamma(ex, st):
+    w, order, peak = api.sym("width"), api.sym("order"), api.sym("peak", "real")
+    st.assume(z3.And(order >= 1, peak >= 0, peak < 1))
+    api.mk_obj(st, "self", "GammaWindow", {"order": order, "peak": peak})
+    st.env["width"] = w
+    x, k = z3.Real("ax"), z3.Int("ak")
+    st.assume(z3.ForAll([x], GEXP(x) > 0))
+    st.assume(z3.ForAll([x, k], z3.Implies(x >= 0, GPOW(x, k) >= 0)))
+    st.assume(z3.ForAll([k], z3.Implies(k >= 1, GPOW(z3.RealVal(0), k) == 0)))
+    st.assume(z3.ForAll([x], GPOW(x, 0) == 1))
+    ex.assumption_ids.add("A-MATH")
+    ex.ctx = dict(w=w, order=order, peak=peak)
+
+
+def contract_gamma():
+    def alpha(c):
+        w, n, p = z3.ToReal(c["w"]), c["order"], c["peak"]
+        return z3.If(n > 1, z3.ToReal(n - 1) / (w - p * w), 5 / w)
+
+    def density(c, t):
+        n = c["order"]
+        a = alpha(c)
+        return GPOW(t, n - 1) * GEXP(-a * t + (z3.ToReal(n) * GLOG(a) - GLOG(GFACT(n - 1))))
+
+    def values(ev, res):
+        st, c = ev.st, ev.ex.ctx
+        if not isinstance(res, RVec):
+            return z3.BoolVal(False)
+        arr = st.ghost[res.key]
+        i = z3.Int("gi")
+        w = c["w"]
+        body = z3.If(w == 1, res.at(arr, i) == 1, res.at(arr, i) == density(c, z3.ToReal(w - 1 - i)))
+        return z3.ForAll([i], z3.Implies(z3.And(i >= 0, i < w), body))
+
+    def nonneg(ev, res):
+        st, c = ev.st, ev.ex.ctx
+        if not isinstance(res, RVec):
+            return z3.BoolVal(False)
+        arr = st.ghost[res.key]
+        i = z3.Int("gn")
+        return z3.ForAll([i], z3.Implies(z3.And(i >= 0, i < c["w"]), res.at(arr, i) >= 0))
+
+    c = Contract(
+        target="filters:GammaWindow.get_impulse_response", uses=["A-REAL", "A-PYSEM", "A-MATH"],
+        consts={"VALUES": SpecFn(values), "NONNEG": SpecFn(nonneg), "float": Opaque("float", "dtype"),
+                "RLEN": SpecFn(lambda ev, r: Z(r.n) if isinstance(r, RVec) else z3.IntVal(-1)),
+                "WHOLE": SpecFn(lambda ev, r: simp(Z(r.lo) == 0) if isinstance(r, RVec) else False)},
+        handlers={"np.arange": h_arange, "np.array": h_array_literal, "np.exp": h_gexp, "np.log": h_glog, "math.factorial": h_gfact, "binop": h_gamma_binop},
+        ensures=[("exactly_width_samples", "RLEN(result) == max(width, 0) and WHOLE(result)"),
+                 ("time_reversed_gamma_density_of_the_order", "VALUES(result)"),
+                 ("non_negative", "NONNEG(result)")],
+    )
+    c.canaries = [("one_sample_more", "RLEN(result) == max(width, 0) + 1")]
+    return c
+
+
+def to_case_gamma(ob):
+    from pyvc.solve import model_int
+    out = []
+    w, n = model_int(ob.model, "width"), model_int(ob.model, "order")
+    for order in ([n] if n is not None and 1 <= n <= 8 else []) + [1, 2, 3, 4, 6]:
+        for peak in (0.75, 0.5, 0.9):
+            if w is not None and 0 <= w <= 5000:
+                out.append({"check": "gamma", "order": order, "peak": peak, "w_lo": w, "w_hi": w, "argmax": False})
+            out.append({"check": "gamma", "order": order, "peak": peak, "w_lo": 0, "w_hi": 64, "argmax": False})
+    return out
+
+
+def unit_gamma(prop="C20"):
+    def unit(tier, known):
+        from contracts.registry import run_contract
+        return run_contract(prop, ("filters", "GammaWindow.get_impulse_response"), contract_gamma(), [("", setup_gamma)], name="gamma_window",
+                            fname="GammaWindow.get_impulse_response", to_case=to_case_gamma, replay_module="rtc.c20")
+    unit.__name__ = "gamma_window"
+    return unit
